@@ -705,16 +705,24 @@ def report_explore(db, rep):
     return H5, st5
 
 
-def run(ctx):
-    db, rep = ctx.db, ctx.report
+def smtp_verdict_explore(db, rep):
+    """qmail-remote smtp() over every reply class per phase (two recipients): the hooks with .sites, .table, .quits"""
     prog = db.program('qmail-remote')
-    # ---- 1/2 smtp()
-    r1 = rep.rule('C09.1-smtp-verdict-table', 'R-TABLE', 'smtp(): per phase and reply class the client\'s action is the documented one (Z/D/h/s/r/K/continue); K needs an accepted recipient, accepted DATA, blast and a final 2xx')
     smtp = prog.fn('smtp', 'qmail-remote.c')
     H = SmtpHooks()
     eng = Engine(db, prog, H)
     eng.run(smtp)
     rep.count_states(eng.states, eng.transitions)
+    return H
+
+
+def run(ctx):
+    db, rep = ctx.db, ctx.report
+    prog = db.program('qmail-remote')
+    # ---- 1/2 smtp()
+    r1 = rep.rule('C09.1-smtp-verdict-table', 'R-TABLE', 'smtp(): per phase and reply class the client\'s action is the documented one (Z/D/h/s/r/K/continue); K needs an accepted recipient, accepted DATA, blast and a final 2xx')
+    H = smtp_verdict_explore(db, rep)
+    smtp = prog.fn('smtp', 'qmail-remote.c')
     for inst, (ok, where, detail, path) in sorted(H.sites.items()):
         r1.check(ok, inst, where, detail, path)
     r1.expect_min(14)
